@@ -1,8 +1,9 @@
 # SPDX-License-Identifier: MIT
+import math
 from dataclasses import dataclass
 from typing import Optional, Union
 
-from ..exceptions import odxraise, odxrequire
+from ..exceptions import EncodeError, odxraise, odxrequire
 from ..odxtypes import AtomicOdxType, DataType
 from .compuscale import CompuScale
 from .limit import Limit
@@ -105,6 +106,10 @@ class LinearSegment:
                 DataType.A_INT32,
                 DataType.A_UINT32,
         ]:
+            if isinstance(result, float) and not math.isfinite(result):
+                odxraise(f"Cannot convert the physical value {physical_value!r} to an integer",
+                         EncodeError)
+                return 0
             result = round(result)
 
         return result
